@@ -5,3 +5,6 @@ import ZbossModel.Props.C02
 #print axioms Zboss.Rx.C02_pending_is_short
 #print axioms Zboss.Rx.C02_pending_bounded
 #print axioms Zboss.Rx.C02_ack_any_state
+#print axioms Zboss.Rx.extent_le
+#print axioms Zboss.Rx.extent_none_of_head
+#print axioms Zboss.Rx.C02_not_deaf
